@@ -26,6 +26,7 @@ type sigCfg struct {
 	NamedRes  bool   `json:"namedRes"`
 	RecvBlank bool   `json:"recvBlank"`
 	Twin      bool   `json:"twin"`
+	Clash     string `json:"clash"`
 	Imp       string `json:"imp"`
 	Pkg       string `json:"pkg"`
 }
@@ -115,13 +116,24 @@ func sigConcretise(k int, s *sigCase) *b1.Case {
 		fmt.Fprintf(&d, "type %s struct {\n\tX int\n}\n", dstBase)
 	}
 	var params []string
+	// the user's own names, where they are declared; some of them are names the tool gives by default
+	srcName := map[string]string{"srcIsDst": "dst", "srcIsErr": "err", "srcBlank": "_"}[c.Clash]
+	if srcName == "" {
+		srcName = "from"
+	}
+	resName := "to"
+	if c.Clash == "resIsSrc" {
+		resName = "src"
+	}
 	if c.Named {
-		params = append(params, "from "+star(c.SrcPtr, srcBase))
+		params = append(params, srcName+" "+star(c.SrcPtr, srcBase))
 	} else {
 		params = append(params, star(c.SrcPtr, srcBase))
 	}
 	for i := 0; i < c.Nargs; i++ {
-		if c.Named {
+		if c.Named && c.Clash == "argIsDst" && i == 0 {
+			params = append(params, "dst "+sigArgTypes[i])
+		} else if c.Named {
 			params = append(params, sigArgNames[i]+" "+sigArgTypes[i])
 		} else {
 			params = append(params, sigArgTypes[i])
@@ -130,9 +142,9 @@ func sigConcretise(k int, s *sigCase) *b1.Case {
 	var results string
 	switch {
 	case c.NamedRes && c.RetErr:
-		results = "(to " + star(c.DstPtr, dstBase) + ", err error)"
+		results = "(" + resName + " " + star(c.DstPtr, dstBase) + ", err error)"
 	case c.NamedRes:
-		results = "(to " + star(c.DstPtr, dstBase) + ")"
+		results = "(" + resName + " " + star(c.DstPtr, dstBase) + ")"
 	case c.RetErr:
 		results = "(" + star(c.DstPtr, dstBase) + ", error)"
 	default:
@@ -201,6 +213,9 @@ func sigDescribe(s *sigCase) string {
 	if c.NamedRes {
 		f = append(f, "named-results")
 	}
+	if c.Clash != "" && c.Clash != "none" {
+		f = append(f, "names:"+c.Clash)
+	}
 	if c.RecvBlank {
 		f = append(f, "receiver-name=_")
 	}
@@ -247,6 +262,14 @@ func sigJudge(r *b1.Result) b1.Verdict {
 	}
 	if s.Shape.Reject {
 		if r.Exit != 0 {
+			v.OK = true
+			return v
+		}
+		c := s.Cfg
+		documented := (c.Reverse && (c.Style == "return" || c.Nargs > 0)) || (c.Recv && (c.Imp == "src" || c.Imp == "both")) || c.RecvBlank
+		if !documented && c.Clash != "" && c.Clash != "none" {
+			// the names of the header clash: no header that keeps the declared names is valid Go. That such a run
+			// must not succeed is C01's statement (its compile judge runs this family too), not C08's
 			v.OK = true
 			return v
 		}
